@@ -417,6 +417,7 @@ func catchGeneratedDataset(p *prng) (metaPath string, cleanup func(), desc J) {
 	}
 	gid := 1
 	nAct := 0
+	paddedOnce := false
 	for idx, id := range ids {
 		// the first unit is RICH: it offers all four action types with non-zero effects and removal efficiencies, so that
 		// the interactions between the actions of one unit (a wetland filtering what river bank, gully and hill slope
@@ -448,6 +449,12 @@ func catchGeneratedDataset(p *prng) (metaPath string, cleanup func(), desc J) {
 			gid++
 		}
 		row := func(kind string, v ...float64) {
+			if !rich && (p.chance(0.08) || (idx == 1 && !paddedOnce)) {
+				paddedOnce = true
+				// a hand-aligned cell: the reader trims leading blanks only, so the type name keeps its trailing blank and is
+				// no known action type -- the row is either ignored by every part of the model or honoured by every part
+				kind += " "
+			}
 			cells := []string{strconv.Itoa(id), kind}
 			for _, x := range v {
 				cells = append(cells, f(x))
